@@ -66,9 +66,40 @@ def _install():
     ptb.ParseTreeBuilder.create_callback = create_callback
 
 
+_lex = {'texts': {}, 'total': 0}
+MAX_TOKENS = int(os.environ.get('VERIF_SUITE_MAX_TOKENS', '40000'))
+
+
+def _install_lexer():
+    """every token the basic / contextual lexers hand out while the suite runs, with the text it was cut from"""
+    import lark.lexer as lx
+    orig = lx.BasicLexer.next_token
+
+    def next_token(self, lex_state, parser_state=None):
+        t = orig(self, lex_state, parser_state)
+        try:
+            if _lex['total'] < MAX_TOKENS:
+                text = lex_state.text.text
+                if len(text) <= 3000:
+                    key = id(text)
+                    rec = _lex['texts'].get(key)
+                    if rec is None or rec['text'] is not text:
+                        rec = _lex['texts'][key] = {'text': text, 'toks': []}
+                    if len(rec['toks']) < 300 and isinstance(t.start_pos, int) and isinstance(t.end_pos, int):
+                        val = t.value if isinstance(t.value, (str, bytes)) else None
+                        rec['toks'].append([0, t.start_pos, t.end_pos, t.line, t.column, t.end_line, t.end_column,
+                                            val is not None and text[t.start_pos:t.end_pos] == val])
+                        _lex['total'] += 1
+        except Exception:
+            pass
+        return t
+    lx.BasicLexer.next_token = next_token
+
+
 def pytest_configure(config):
     if OUT:
         _install()
+        _install_lexer()
 
 
 def pytest_unconfigure(config):
@@ -78,6 +109,19 @@ def pytest_unconfigure(config):
 
     class P:
         pass
+    with open(os.path.join(OUT, '%d.tokens.ndjson' % os.getpid()), 'w') as f:
+        for rec in _lex['texts'].values():
+            text = rec['text']
+            # tokens a callback rewrote (value is not the text any more) say nothing about the lexer's coordinates
+            toks = [t for t in rec['toks'] if t[7] and all(isinstance(x, int) for x in t[1:7])]
+            if not toks:
+                continue
+            nl = b'\n' if isinstance(text, bytes) else '\n'
+            offs, p = [], text.find(nl)
+            while p >= 0:
+                offs.append(p)
+                p = text.find(nl, p + 1)
+            f.write(json.dumps({'n': len(text), 'NL': offs, 'toks': toks}) + '\n')
     path = os.path.join(OUT, '%d.ndjson' % os.getpid())
     with open(path, 'w') as f:
         for rec in _state['builders']:
